@@ -13,13 +13,16 @@ const (
 	c20SegFile  = "c20f"     // name of an existing FILE (in the output directory and, as canary, at every guard level)
 	c20SegDir   = "c20d"     // name of an existing DIRECTORY (same)
 	c20SegNul   = "c20\x00n" // embedded NUL
+	// a name that has the designated directory's own name ("out") as a string prefix: "../out-c20"
+	// is a sibling of the designated directory whose path starts with the designated directory's path
+	c20SegOutSib = "out-c20"
 )
 
 // 255 bytes: the longest single name most file systems accept
 var c20SegLong = "c20" + strings.Repeat("x", 252)
 
 func c20Segments() []string {
-	return []string{"..", ".", "", c20SegPlain, c20SegSpace, c20SegLong, c20SegNul, c20SegFile, c20SegDir}
+	return []string{"..", ".", "", c20SegPlain, c20SegSpace, c20SegLong, c20SegNul, c20SegFile, c20SegDir, c20SegOutSib}
 }
 
 // c20Names enumerates lead + seg1/seg2/…/segN + trail for every N in 0..maxSegs, every segment tuple,
